@@ -239,8 +239,7 @@ func (i *Index) AddDesc(d Descriptor, opts ...IndexOpt) {
 				return
 			}
 			if compat < 0 && (md.Annotations == nil ||
-				((tag == "" || md.Annotations[AnnotRefName] == "") &&
-					(referrer == "" || md.Annotations[AnnotReferrerSubject] == ""))) {
+				(md.Annotations[AnnotRefName] == "" && md.Annotations[AnnotReferrerSubject] == "")) {
 				compat = mi
 			}
 		}
